@@ -84,7 +84,12 @@ LoggedIndexExactFor(prop, e, P) ==
               /\ SeqSet(q.withself) = M /\ Len(q.withself) = Cardinality(M)
               /\ q.isclone = (Cardinality(M) > 1),
           id, prop, "clones", why)
-   /\ Say(\A i \in R : e.post.did[i] # -1, id, prop, "data_id_rule", why)
+   \* "a node's data_id is the explicit id it was given, else the id callback applied to its data, else hash(data)":
+   \* explicit ids are the model values >= 11; every other id must be the default id of the data the node holds NOW
+   \* (no node under a stale id after its data was changed).  Records of the repository's own tests use per-record
+   \* registries of ids and are exempt.
+   /\ Say(\A i \in R : e.post.did[i] # -1 /\ (e.fl = "suite" \/ e.post.did[i] >= 11 \/ e.post.did[i] = DefDid(e.post.dat[i])),
+          id, prop, "data_id_rule", why)
 
 LoggedIndexExact(e, P) == LoggedIndexExactFor("C02", e, P)
 
@@ -130,6 +135,10 @@ CheckStep(e) ==
    /\ Say(e.status = "ok" \/ Unchanged(e.pre, e.post), id, "C13", "changed_on_error:" \o e.status, why)
    \* ... observably unchanged includes the lookups (they were exact before the call)
    /\ (e.status # "ok" /\ Unchanged(e.pre, e.post) => LoggedIndexExactFor("C13", [e EXCEPT !.op = [name |-> "lookups_after_refusal:" \o why]], P))
+   \* --- a node_id chosen by the caller is registered iff the call was carried out (C01 / C13)
+   /\ ("new_nid" \in DOMAIN e.obs /\ Len(e.obs.new_nid) = 1 =>
+         Say(e.obs.new_nid[1] = (IF e.status = "ok" THEN 1 ELSE 0), id, IF e.status = "ok" THEN "C01" ELSE "C13",
+             "explicit_node_id_lookup:" \o e.status, why))
    \* --- C03: whatever would create duplicate siblings is refused with the uniqueness error
    /\ Say((~r.ok /\ r.errs = {"UniqueConstraintError"}) => e.status = "UniqueConstraintError",
           id, "C03", "dup_not_refused:" \o e.status, why)
